@@ -78,6 +78,11 @@ def h14a(c, n_streams=2, lengths=(1, 2), grouping="choose", raise_in_callback=Fa
 
         def pmb(strategy, market, market_book):
             seen.append((market.market_id, market_book, _dt.datetime.utcnow(), strategy))
+            if orders:
+                for mid2, (o2, j2) in sent.items():
+                    if mid2 != market.market_id and len([x for x in seen if x[0] == mid2]) - 1 == j2 and not [x for x in seen_closed if x[0] == mid2]:
+                        # no update of that market since its request: the request is still pending whatever other markets have ticked
+                        c.ob("request-not-executed-on-another-markets-update", o2.status == OrderStatus.PENDING and o2.bet_id is None, status=o2.status.name)
             if orders and market.market_id not in sent:
                 # one request per market, made on its first update: it falls due on the market's next update (also a closing one, also
                 # when another market of the group ends in between)
@@ -275,6 +280,14 @@ def h14f(c, U=3):
     h07(_Only(c, ("strategy-clock=publish-time", "clock-at-execution=processing-update", "executed-at-first-due-update", "no-exception")), U=U, R=1, real_time_error=True)
 
 
+def h14i(c, U=3):
+    """loop level (C07 world) with updates of another market of the same file, also delivered together in one event: the clock a strategy sees
+    is the publish time of the very book being processed"""
+    from .c07 import h07
+    from .c06 import _Only
+    h07(_Only(c, ("strategy-clock=publish-time", "clock-at-execution=processing-update", "no-exception")), U=U, R=1, other_market=True)
+
+
 def h14g(c):
     """a strategy only shares a historical stream with another one when their listener filters mean the same (C13 harness): otherwise
     updates that pass its own filters would be dropped by the other strategy's filter"""
@@ -286,6 +299,7 @@ HARNESSES = [
     Harness("H14h", h14a, quick=dict(n_streams=2, lengths=(2, 3), orders=True, closing=True), thorough=dict(n_streams=2, lengths=(2, 3, 4), orders=True, closing=True),
             pattern="P1 + P3 (requests in flight across stream ends and closing updates)", requires=["run", "event-group", "closing-update", "request-executed"],
             selfcheck=False),
+    Harness("H14i", h14i, quick=dict(U=3), thorough=dict(U=4), pattern="P3 with symbolic time", requires=["run", "other-market-update", "multi-book-event"], selfcheck=False),
     Harness("H14g", h14g, pattern="exhaustive choice product (structural)", requires=["separate", "may-share"], selfcheck=False),
     Harness("H14f", h14f, quick=dict(U=3), thorough=dict(U=4), pattern="P3 with symbolic time", requires=["run", "executed"], selfcheck=False),
     Harness("H14a", h14a, quick=dict(n_streams=2, lengths=(1, 3)), thorough=dict(n_streams=3, lengths=(1, 2, 3)), pattern="P1 + P4 (wall clock)",
